@@ -109,7 +109,7 @@ func runTimed(sc timedScen, idx int) (*timedTrace, error) {
 		slack = 250
 	}
 	tr := &timedTrace{ID: fmt.Sprintf("timed:%s:%s:T%d:p%d", sc.Transport, sc.Scen, sc.T, sc.Phase), Transport: sc.Transport, Scen: sc.Scen,
-		T: sc.T, Phase: sc.Phase, Eps: 2, Slack: slack, Limit: 8192, Chunk: 2048, Want: 12, NeedClosed: sc.Transport == "tcp"}
+		T: sc.T, Phase: sc.Phase, Eps: 2, Slack: slack, Limit: 8192, Chunk: 2048, Want: 12, NeedClosed: sc.Transport == "tcp" || sc.Transport == "wrap"}
 	T := time.Duration(sc.T) * time.Millisecond
 	horizon := 3*T + time.Duration(slack)*time.Millisecond + 1500*time.Millisecond
 
@@ -204,6 +204,69 @@ func runTimed(sc timedScen, idx int) (*timedTrace, error) {
 			case <-time.After(time.Second):
 			}
 		}
+	} else if sc.Transport == "wrap" {
+		// listener-wrapper mode: the same routes inside caddy.listeners.layer4 around a loopback TCP listener
+		base, err := vh.CaddyContext()
+		if err != nil {
+			return nil, err
+		}
+		wctx, wcancel := caddy.NewContext(base)
+		defer wcancel()
+		lw := &layer4.ListenerWrapper{MatchingTimeout: caddy.Duration(T)}
+		if err := json.Unmarshal(timedRoutes(sc.Scen), &lw.Routes); err != nil {
+			return nil, err
+		}
+		if err := lw.Provision(wctx); err != nil {
+			return nil, err
+		}
+		layer4.VerifListenerWrapperLogger(lw, logger)
+		ln, err := net.Listen("tcp", "127.0.0.1:0")
+		if err != nil {
+			return nil, err
+		}
+		wl := lw.WrapListener(&obsListener{Listener: ln, rec: rec})
+		defer wl.Close()
+		go func() {
+			// the wrapped listener's user: nothing falls through in these scenarios
+			for {
+				c, err := wl.Accept()
+				if err != nil {
+					return
+				}
+				rec.Add(vh.Ev{"e": "HErr"})
+				c.Close()
+			}
+		}()
+		// (the wrapper accepts and arms the deadline as soon as the client connects: time zero is just before that)
+		rec.T0 = time.Now()
+		cc, err := net.Dial("tcp", ln.Addr().String())
+		if err != nil {
+			return nil, err
+		}
+		defer cc.Close()
+		vh.RegisterRec(cc.LocalAddr().String(), rec)
+		defer vh.UnregisterRec(cc.LocalAddr().String())
+		go client(func(b []byte) error { _, err := cc.Write(b); return err }, stop)
+		// the connection ends when layer4 closes it: wait for that
+		closedSeen := func() bool {
+			for _, e := range rec.Snapshot() {
+				if e["e"] == "Closed" {
+					return true
+				}
+			}
+			return false
+		}
+		deadline := time.Now().Add(horizon)
+		for time.Now().Before(deadline) && !closedSeen() {
+			time.Sleep(5 * time.Millisecond)
+		}
+		close(stop)
+		if sc.Scen == "slowhandler" {
+			cc.Close()
+			for k := 0; k < 200 && !closedSeen(); k++ {
+				time.Sleep(5 * time.Millisecond)
+			}
+		}
 	} else {
 		pc, err := net.ListenPacket("udp", "127.0.0.1:0")
 		if err != nil {
@@ -247,6 +310,20 @@ func runTimed(sc timedScen, idx int) (*timedTrace, error) {
 		tr.Ev = []vh.Ev{}
 	}
 	return tr, nil
+}
+
+// obsListener hands out observed connections (reads, deadlines and Close are recorded)
+type obsListener struct {
+	net.Listener
+	rec *vh.Recorder
+}
+
+func (l *obsListener) Accept() (net.Conn, error) {
+	c, err := l.Listener.Accept()
+	if err != nil {
+		return nil, err
+	}
+	return &vh.ObsConn{Conn: c, Rec: l.rec}, nil
 }
 
 func init() {
